@@ -663,6 +663,10 @@ class Hugr(Mapping[Node, NodeData], Generic[OpVarCov]):
                 metadata=node_data.metadata,
             )
 
+        # the child order of the inserted HUGR may differ from its index order
+        for node, node_data in hugr.nodes():
+            self[mapping[node]].children = [mapping[c] for c in node_data.children]
+
         for src, dst in hugr._links.items():
             self.add_link(
                 mapping[src.port.node].out(src.port.offset),
